@@ -931,10 +931,8 @@ def _check_round_robin(self):
             if A.live:
                 st.mem[(A.live, ())] = C(T)
             for i in range(T):
-                if A.split:
-                    st.mem[(SLOTS, (i, A.split['ctrl'], A.state))] = C(E['READY'])
-                else:
-                    st.mem[(CTRL, (i, A.state))] = C(E['READY'])
+                # (an array of {buffer, controller} pairs is read through the same parallel-array view as everywhere else)
+                st.mem[(CTRL, (i, A.state))] = C(E['READY'])
             I = interp.Interp(prog, models=dict(models.STD_MODELS))
             I.heap_fields = A.heap_fields
             I.split_fields = split_hook(A)
